@@ -154,7 +154,7 @@ fn run_set<S: PS>(ctx: &Ctx) -> Acc {
         sk_storm::<S>(&mut acc, &mut g, "honest", &hsk, true);
         let spats = [SPat::AllMinus, SPat::AllPlus, SPat::Alternating, SPat::Zero, SPat::Random, SPat::NttSparse];
         // RandomExtremes t0 (thousands of rejection iterations) is exercised by the c13f4 stage
-        let tpats = [T0Pat::AllTop, T0Pat::AllBottom, T0Pat::Random, T0Pat::Zero, T0Pat::NttSparse];
+        let tpats = [T0Pat::AllTop, T0Pat::AllBottom, T0Pat::Random, T0Pat::Zero, T0Pat::NttSparse, T0Pat::SparseSmall];
         let sp = spats[ji % 5];
         let tp = tpats[(ji / 5) % 4];
         let sk = gen::hostile_sk(&mut g, p, sp, tp);
